@@ -18,6 +18,7 @@ def run(prog, tier):
     CR.group_writer_rule(prog, res)
     CR.parameter_writer_rule(prog, res)
     CR.frame_writer_rule(prog, res)
+    CR.default_scale_rule(prog, res)
     CR.toupper_rule(prog, res)
     CR.header_sync_rule(prog, res)
     # word 3 (analog measurements per frame) = channels x sub-frames is maintained by the header's own setters
